@@ -86,13 +86,28 @@ def gen_cases(run, n, prefix="c"):
         if i % 3 == 0:
             schema = gen_schema(rng, odd_type_names=(i % 6 == 0), narrowing=0.35 if i % 2 else 0.0, unknown_member=(i % 12 == 9))
         doc, feats = gen_document(schema, rng)
+        if i % 8 == 5:
+            # (schema rendered with every object split into extension blocks, see below) an operation that selects every
+            # interface- / union-typed root field with nothing but `__typename` and the common leaves: every possible runtime
+            # type then appears in the payloads without the document naming it
+            from ..model import base as _base
+            extra = []
+            root = schema.types[schema.roots["query"]]
+            for f in root["fields"]:
+                b = _base(f["type"])
+                if schema.kind(b) in ("interface", "union") and not any(a[1][0] == "nn" for a in f.get("args", [])):
+                    leaves = [g["name"] for g in schema.types[b].get("fields", []) if schema.is_leaf(_base(g["type"]))] if schema.kind(b) == "interface" else []
+                    extra.append(["field", None, f["name"], None, [["typename"]] + [["field", None, n, None, None] for n in leaves[:3]]])
+            if extra:
+                doc["operations"].append({"kind": "query", "name": "ZzAbstractRoots%d" % i, "vars": [], "sel": extra})
+                feats = list(feats) + ["interface"]
         opts = {"other_variant": rng.random() < 0.3, "skip_none": rng.random() < 0.2}
         if "Unknown" in schema.types:
             opts["other_variant"] = False     # a member type literally called `Unknown`: the generator must not add a variant of that name itself
             run.count("member-type-named-Unknown")
         if rng.random() < 0.3:
             opts["normalization"] = "rust"
-        c = C.make_case("%s%d" % (prefix, i), schema, doc, rng, options=opts, features=feats)
+        c = C.make_case("%s%d" % (prefix, i), schema, doc, rng, options=opts, features=feats, fmt="sdl-extended" if i % 8 == 5 else None)
         vecs, stats = C.resp_vectors(c, rng, n_payloads=run.size(10, 16), n_corrupt_bases=0)
         c["vectors"] = vecs
         c["payload_stats"] = stats
